@@ -108,8 +108,9 @@ pub fn profile_for(prop: Prop) -> Profile {
             p.forge_iid_pm = 50;
         }
         Prop::C07 => {
-            p.ops = [14, 1, 1, 40, 4, 8, 1, 1, 0, 3, 0, 0, 0];
-            p.req_kinds = [12, 4, 2, 1, 1, 1, 0, 0, 0, 0, 0, 0, 0, 0, 0, 0, 0];
+            p.ops = [20, 1, 1, 40, 4, 8, 1, 2, 0, 3, 10, 0, 0];
+            p.req_kinds = [12, 6, 3, 2, 3, 3, 0, 0, 0, 0, 0, 0, 0, 0, 0, 0, 0];
+            p.forge_valid_pc = 60;
             p.fault_max = [1, 1, 1, 1, 1, 0, 0, 0, 0, 0, 0, 2, 2, 0, 0, 0, 0];
             p.snoop_pc = 10;
         }
